@@ -522,24 +522,65 @@ def r5_one_transaction(ctx):
                 call_name(c) == '__exit__' for n in mg.nodes
                 for c in n.calls()):
             soft.add(name)
+    # The default statement group is transactional and did not ask for a
+    # transaction of its own.  Walk the loop body under that valuation
+    # (use_transaction = True, every other flag unpacked from the batch tuple
+    # = False): no committing call may be reachable before the statements are
+    # executed.  Commits that only happen for NoTransactionSQL groups or for
+    # groups that explicitly asked for a new transaction (NewTransactionSQL)
+    # are the documented semantics.
+    from ..util import for_heads
+    flags = {}
+    loop_entries = []
+    for h in for_heads(g):
+        if 'batches' not in unparse(h.ast.iter):
+            continue
+        names = [x.id for x in ast.walk(h.ast.target)
+                 if isinstance(x, ast.Name)]
+        if 'use_transaction' not in names:
+            continue
+        for nm in names:
+            flags[nm] = (nm == 'use_transaction')
+        flags.pop('batch', None)
+        flags.pop('i', None)
+        loop_entries.append(h)
+    if not loop_entries:
+        raise AnalysisError('R-C07.5: the loop over the statement batches '
+                            'was not found in run_sql')
+    default_reach = set()
+    for h in [g.entry]:
+        stack = [h]
+        seen = set()
+        while stack:
+            n = stack.pop()
+            if n.id in seen:
+                continue
+            seen.add(n.id)
+            val = None
+            if n.kind == 'test':
+                t = n.ast
+                neg = False
+                while isinstance(t, ast.UnaryOp) and isinstance(t.op, ast.Not):
+                    t, neg = t.operand, not neg
+                if isinstance(t, ast.Name) and t.id in flags:
+                    val = flags[t.id] != neg
+            for s_, l in n.succ:
+                if l == 'exc':
+                    continue
+                if val is not None and l in ('T', 'F') and \
+                        l != ('T' if val else 'F'):
+                    continue
+                stack.append(s_)
+        default_reach |= seen
     sites = 0
     for n in g.nodes:
         for c in n.calls():
             if is_self_attr(c.func) and c.func.attr in commits - soft:
                 sites += 1
-                # accepted idiom: "if <use transaction>: new_transaction()
-                # else: finish_transaction()" - the commit sits in the other
-                # arm of the very test that guards opening a transaction
-                opens = [m for m in g.nodes for cc in m.calls()
-                         if is_self_attr(cc.func) and
-                         cc.func.attr == 'new_transaction']
-                tests = [t for t in g.nodes if t.kind == 'test' and
-                         isinstance(t.ast, ast.Name) and
-                         any(g.guarded_by(o, t, 'T') for o in opens)]
-                if c.func.attr != 'new_transaction' and \
-                        any(g.guarded_by(n, t, 'F') for t in tests):
-                    ctx.ok(f, 'commit only for NoTransactionSQL batches '
-                           '(documented semantics)', c)
+                if n.id not in default_reach:
+                    ctx.ok(f, 'commit only for NoTransactionSQL / explicit '
+                           'NewTransactionSQL groups (documented semantics)',
+                           c)
                 else:
                     ctx.finding(
                         f, c, 'run_sql commits the transaction already open '
@@ -605,7 +646,62 @@ def r6_no_swallow_on_execution_path(ctx):
     ctx.floor('broad exception handlers on the execution path', n, 7)
 
 
+def r7_global_registration_released(ctx):
+    """register_global_custom_migrations() sets a module-global that a second
+    call asserts to be empty.  It must be released by
+    clear_global_custom_migrations() on every exit of the function that set
+    it, exceptional exits included: a preparation that fails (simulation
+    failure, missing baseline) otherwise makes every later Evolver in the
+    process - in particular the retry of the same upgrade - die on that
+    assertion."""
+    ctx.rule('R-C07.7')
+    p = ctx.program
+    n_sites = 0
+    for f in p.all_funcs():
+        if f.module.name.endswith('utils.migrations'):
+            continue
+        calls = [c for c in walk_no_nested(f.node) if isinstance(c, ast.Call)
+                 and call_name(c) == 'register_global_custom_migrations']
+        if not calls:
+            continue
+        g = ctx.cfg(f)
+        regs = [n for n in g.nodes if any(
+            call_name(c) == 'register_global_custom_migrations'
+            for c in n.calls())]
+        clears = [n for n in g.nodes if any(
+            call_name(c) == 'clear_global_custom_migrations'
+            for c in n.calls())]
+        for r in regs:
+            n_sites += 1
+            # successors after the registration completed normally
+            starts = [s_ for s_, l in r.succ if l != 'exc']
+            bad = None
+            for exit_node in (g.exit, g.exc_exit):
+                for st in starts:
+                    w = g.path(st, exit_node, avoid=clears, follow_exc=True)
+                    if w is not None:
+                        bad = (exit_node, w)
+                        break
+                if bad:
+                    break
+            if bad is None:
+                ctx.ok(f, 'the global custom-migration registration is '
+                       'cleared on every exit, exceptional ones included',
+                       r.ast)
+            else:
+                ctx.finding(f, r.ast, 'register_global_custom_migrations() is '
+                            'not released on %s: after a failed preparation '
+                            'the next Evolver in the process (the retry) '
+                            'fails with "cannot be called until any existing '
+                            'migrations are unregistered"' % (
+                                'an exceptional exit'
+                                if bad[0] is g.exc_exit else 'a normal exit'),
+                            path=bad[1], key='registration-not-released')
+    ctx.floor('register_global_custom_migrations call sites', n_sites, 1)
+
+
 def run(ctx):
+    r7_global_registration_released(ctx)
     r6_no_swallow_on_execution_path(ctx)
     r1_exception_forwarding(ctx)
     r2_atomic_bound(ctx)
